@@ -988,6 +988,12 @@ func (c *c19) run(cs *c19Case, g Graph, sess GraphSessionFactory,
 		_ btcutil.Amount) float64 {
 
 		v := probVal(from, to)
+		if len(relaxLog) > 20000 {
+			// 2..7 nodes: a search that relaxes this often does not
+			// terminate (e.g. negative edge weights); report the case
+			// instead of exhausting memory.
+			panic("c19: search does not terminate")
+		}
 		if logOn {
 			relaxLog = append(relaxLog, c19Relax{idx[from], idx[to],
 				uint64(amt), v})
